@@ -1026,6 +1026,21 @@ def iter_collect(m, a, ci):
     d = head_ident(ci.dest_ty) if ci.dest_ty else 'Vec'
     if d in ('Vec', 'SmallVec'):
         return Vec(xs, d)
+    if d == 'Result':
+        # collect::<Result<Vec<_>, E>>(): the first Err wins
+        out = []
+        for x in xs:
+            if isinstance(x, Agg) and x.ty == 'Result' and x.variant == 'Err':
+                return x
+            out.append(x.fields[0] if isinstance(x, Agg) and x.ty == 'Result' else x)
+        return ok(Vec(out, 'Vec'))
+    if d == 'Option':
+        out = []
+        for x in xs:
+            if isinstance(x, Agg) and x.ty == 'Option' and x.variant == 'None':
+                return NONE
+            out.append(x.fields[0] if isinstance(x, Agg) and x.ty == 'Option' else x)
+        return some(Vec(out, 'Vec'))
     if d == 'String':
         cs = []
         for x in xs:
@@ -1904,6 +1919,8 @@ def key_lt(m, x, y):
         return str_lt(x, y)
     if isinstance(x, (int,)) or is_sym(x):
         return i_ult(x, y)
+    if hasattr(x, 'model_lt'):
+        return x.model_lt(m, y)
     if isinstance(x, Agg) and x.ty == 'Reverse' and isinstance(y, Agg) and y.ty == 'Reverse':
         return key_lt(m, y.fields[0], x.fields[0])
     if isinstance(x, Agg) and x.ty == 'tuple' and isinstance(y, Agg) and y.ty == 'tuple' and len(x.fields) == len(y.fields):
@@ -1933,6 +1950,24 @@ def slice_sort_by_key(m, a, ci):
     keys = [m.call_value(a[1], [m.heap.alloc(x) if not isinstance(x, Ref) else x]) for x in v.items]
     m.store(a[0], Vec(stable_sort(m, list(v.items), keys), v.kind))
     return UNIT
+
+
+@reg('Vec::dedup', 'Vec::dedup_by_key')
+def vec_dedup(m, a, ci):
+    v = _vec(m, a[0])
+    out = []
+    for x in v.items:
+        if out and m.ctx.branch(value_eq(m, out[-1], x)):
+            continue
+        out.append(x)
+    m.store(a[0], Vec(out, v.kind))
+    return UNIT
+
+
+@reg('Vec.Clone::clone', 'SmallVec.Clone::clone', 'slice::to_vec')
+def vec_clone(m, a, ci):
+    g, r, n = seq_view(m, a[0])
+    return Vec([g(i) for i in range(n)], 'Vec')
 
 
 @reg('slice::sort', 'slice::sort_unstable')
